@@ -141,6 +141,8 @@ class Machine:
         except Exception as ex:
             logging.error("Machine stopped due to {} at instruction {}"
                           .format(ex, self._reg.pc))
+            self._vm_io.reset()
+            self._vm_io.flush()
 
     def stop(self) -> None:
         self._keep_running = False
